@@ -91,7 +91,8 @@ def judge_load(part, probe, text_steps, what, budget, expect_cycle=False, entrie
     for n in rng.sample(names, min(6, len(names))):
         if re.fullmatch(r"[A-Za-z_][A-Za-z0-9_]*", n):
             probes += [n, "3 %s" % n, "1 %s -> %s" % (n, n), "units for %s" % n]
-    probes += ["brokenname + 1", "3 u0 -> u1", "mass of (2 s0)", "s0"]
+    probes += ["brokenname + 1", "3 u0 -> u1", "mass of (2 s0)", "s0", "zork", "aa", "bb", "cc", "alias1", "3 aa -> bb", "units for zork",
+               "1 zork -> alias1"]
     for s_name in list(dump["substances"])[:3]:
         if re.fullmatch(r"[A-Za-z_][A-Za-z0-9_]*", s_name):
             probes.append(s_name)
@@ -100,7 +101,7 @@ def judge_load(part, probe, text_steps, what, budget, expect_cycle=False, entrie
                     if re.fullmatch(r"[A-Za-z_][A-Za-z0-9_]*", nm):
                         probes.append("%s of %s" % (nm, s_name))
                         probes.append("%s of (2 %s)" % (nm, s_name))
-    for q in probes[:40]:
+    for q in probes[:60]:
         a = probe.request({"op": "eval", "ctx": cid, "q": q}, timeout=30)
         if "timeout" in a or "died" in a:
             part.violation({"kind": "query_after_load_no_reply", "how": "timeout" if "timeout" in a else "died"},
@@ -297,6 +298,20 @@ def work(idx, _chunk, seed, n_mut, n_gen, bundled, cur_units, snapshot, dates):
         for depth in (100, 1000, 5000):
             text = "b !\ndeep %s2 b%s\n" % ("(" * depth, ")" * depth)
             judge_load(part, probe, [{"kind": "text", "text": text}], "deep-nesting:definitions:%d" % depth, budget)
+    for _ in range(n_gen // 6 + 1):
+        text, cyc = gen_nested_prefix_file(rng)
+        msgs = judge_load(part, probe, [{"kind": "text", "text": text}], "nested-prefix-file:" + ("cycle" if cyc else "valid"), budget,
+                          expect_cycle=cyc)
+        if msgs is not None and not cyc and msgs.strip():
+            part.violation({"kind": "valid_file_reports_errors", "what": "nested-prefix-file"},
+                           {"text": text, "messages": msgs[:400]},
+                           "a valid definitions file (prefix applied to a unit) is reported as erroneous")
+        part.seen("nested|" + text[:80])
+    for _ in range(n_gen // 3 + 1):
+        a, b = gen_two_files(rng)
+        judge_load(part, probe, [{"kind": "text", "text": a}, {"kind": "text", "text": b}], "two-files", budget)
+        part.count("two_file_loads")
+        part.seen("two|" + b[:60])
     for _ in range(n_gen):
         text = gen_file(rng)
         judge_load(part, probe, [{"kind": "text", "text": text}], "generated-file", budget, entries_text=text)
@@ -326,6 +341,47 @@ def work(idx, _chunk, seed, n_mut, n_gen, bundled, cur_units, snapshot, dates):
                     part.count("date_pattern_files_ok")
                 probe.request({"op": "dropctx", "ctx": cid})
     return part.export()
+
+
+def gen_two_files(rng):
+    """a valid first file and a second file loaded on top of it (as user files are): redefinitions, aliases pointing
+    back into the first file, cycles over existing names, self-aliases, prefix/unit name clashes"""
+    f1 = ["m !meter", "s !", "k-- 1e3", "aa 3 m", "bb 2 aa", "cc bb", "dd cc s", "zork 5 m", "alias1 zork", "kk- 1e3"]
+    names = ["aa", "bb", "cc", "dd", "zork", "alias1", "m", "s", "meter"]
+    f2 = []
+    for _ in range(rng.randrange(1, 6)):
+        a, b = rng.choice(names[:6]), rng.choice(names)
+        form = rng.random()
+        if form < 0.3:
+            f2.append("%s %s" % (a, b))                     # alias (possibly of itself, possibly closing a cycle)
+        elif form < 0.6:
+            f2.append("%s %d %s" % (a, rng.randrange(2, 9), b))
+        elif form < 0.75:
+            f2.append("%s %s %s" % (a, b, rng.choice(names)))
+        elif form < 0.85:
+            f2.append("new%d %s" % (rng.randrange(9), rng.choice(names[:6])))
+        else:
+            f2.append("%s-- %s" % (rng.choice(["a", "z", "k", "al"]), rng.choice(["10", "k", "kk", "1|0"])))
+    return "\n".join(f1) + "\n", "\n".join(f2) + "\n"
+
+
+def gen_nested_prefix_file(rng):
+    """valid by construction: nested prefixes (d / da, k / ki) applied to units whose names begin with the rest of the
+    longer prefix (d + acre reads as da + cre ...); referrers sort before and after what they refer to"""
+    short, long_ = rng.choice([("d", "da"), ("k", "ki"), ("m", "mi"), ("x", "xy")])
+    rest = long_[len(short):]
+    unit = rest + rng.choice(["cre", "lo", "zz", "unit"])
+    lines = ["m !meter", "%s-- 1e-1" % short, "%s-- 1e1" % long_, "%s 4000 m^2" % unit]
+    refs = []
+    for nm in rng.sample(["aaplot", "zzplot", "mplot", unit[:1] + "plot"], 2):
+        lines.append("%s 5 %s%s" % (nm, short, unit))
+        refs.append(nm)
+    cyc = rng.random() < 0.4
+    if cyc:
+        # the unit now depends on a referrer: a cycle through a prefixed reference
+        lines[3] = "%s 8 %s" % (unit, refs[0])
+    rng.shuffle(lines)
+    return "\n".join(lines) + "\n", cyc
 
 
 def work_cycles(idx, chunk, seed):
